@@ -42,8 +42,12 @@ where
                         })?
                 };
 
-                if let Some(pow) = part.find('^') {
-                    let pow_str = &part[pow + 1..];
+                // Only "^<exponent>" (or nothing) may follow the variable
+                let rest = &part[x + var.len_utf8()..];
+                if rest.is_empty() {
+                    // x^1 value
+                    (coeff, 1)
+                } else if let Some(pow_str) = rest.strip_prefix('^') {
                     let power =
                         pow_str
                             .parse::<usize>()
@@ -52,8 +56,9 @@ where
                             })?;
                     (coeff, power)
                 } else {
-                    // x^1 value
-                    (coeff, 1)
+                    return Err(PolynomialError::UnexpectedChar {
+                        char: rest.chars().next().unwrap_or(var),
+                    });
                 }
             } else {
                 // No 'x' aka num is constant
